@@ -4,13 +4,16 @@ import json
 import os
 
 root = os.path.dirname(os.path.dirname(os.path.abspath(__file__)))
-SIBLING = {"C08_15": "C14", "C12_15": "C13", "C18_14": "C14", "C01_18": "C02", "C05_18": "C18", "C18_17": "C15"}
+SIBLING = {"C08_15": "C14", "C12_15": "C13", "C18_14": "C14", "C01_18": "C02", "C05_18": "C18", "C18_17": "C15", "C12_16": "C13"}
 DELIBERATE = {"C03_7": "needs vmin > vmax", "C07_9": "repeated time stamps in consecutive frames", "C03_14": "round-off knife-edge",
               "C13_14": "negative interface distance", "C04_18": "subnormal contrast", "C10_17": "round-off knife-edge",
               "C13_18": "more than 120 amplitudes (minutes per volume)"}
 NOTE = {"C05_14": "neutralised by the repair cd97c8d (the fit region now extends by 1 + int(2 w / h) cells, i.e. at least two interface "
                   "widths, so the new radius bound only binds for thresholds above 0.98 of the contrast): the demonstration passes with the "
-                  "change on the repaired tree; kept for the record, not counted"}
+                  "change on the repaired tree; kept for the record, not counted",
+        "C12_13": "neutralised by the repair 5b90216 (the dimension-generic compiled volume conversion now returns floats in one "
+                  "dimension too, so delegating the specialised variants to it no longer fails for integer arrays): the demonstration "
+                  "passes with the change on the repaired tree; kept for the record, not counted"}
 for table, key in ((SIBLING, "caught_by_sibling_check"), (DELIBERATE, "not_covered_deliberately"), (NOTE, "status_note")):
     for sid, val in table.items():
         p = os.path.join(root, "seeded", sid, "meta.json")
